@@ -30,7 +30,7 @@ followed by `:`; block lines keep their indentation.
 import re
 
 SECTION_RE = re.compile(
-    r'^(ret|requires|ensures|decreases|loop|closure|hint|probe|carve|opts|body|sig|wrap)\b([^:]*):\s*(.*)$')
+    r'^(ret|requires|ensures|decreases|loop|closure|hint|probe|carve|opts|body|sig|wrap|bind)\b([^:]*):\s*(.*)$')
 
 
 class FnContract:
@@ -50,6 +50,7 @@ class FnContract:
         self.carves = {}     # name -> text
         self.sig_subst = []  # (old, new) textual substitutions in the signature (R2 etc.)
         self.body_subst = []  # (old, new, count) – only for listed rewrites (R4)
+        self.binds = []      # (method, ordinal, hint text) – R7
 
     @property
     def key(self):
@@ -104,6 +105,9 @@ def parse_vc(path, into=None):
                     cur.hints.append(('end', 0, text))
                 else:
                     cur.hints.append((a[0], int(a[1]), text))
+            elif kind == 'bind':
+                a = arg.split()
+                cur.binds.append((a[0], int(a[1]), text))
             elif kind == 'probe':
                 cur.probes[arg.strip()] = text
             elif kind == 'carve':
